@@ -89,7 +89,7 @@ def gen_ic(rng, n, edges, sir, modes=('rho', 'default', 'sets', 'sets', 'sets'))
             else:
                 nr = rng.randint(1, max(1, (n - ni) // 2)); R = rest[:nr]; rest = rest[nr:]
         if any(deg[u] > 0 for u in rest):
-            return {'mode': 'sets', 'I': I, 'R': R, 'form': rng.choice(['list', 'list', 'tuple', 'set', 'ndarray', 'keys'])}
+            return {'mode': 'sets', 'I': I, 'R': R, 'form': rng.choice(['list', 'tuple', 'set', 'ndarray', 'keys', 'ndarray'])}
     return {'mode': 'rho', 'rho': '1/4'}
 
 
@@ -229,10 +229,14 @@ def _ickw(o, labels, sir):
     def shaped(l):
         # the node collections may be handed over as any container: list, tuple, set, numpy array (integer labels), dict keys
         f = ic.get('form', 'list')
-        if f == 'ndarray' and l and all(isinstance(x, int) and not isinstance(x, bool) for x in l):
+        if f == 'ndarray':
             import numpy as np
-            return np.array(l)
-        if f == 'tuple' or f == 'ndarray': return tuple(l)
+            if l and all(isinstance(x, int) and not isinstance(x, bool) for x in l):
+                return np.array(l)
+            a = np.empty(len(l), dtype=object)          # string / tuple labels: a 1-d object array holding the labels themselves
+            for i_, x in enumerate(l): a[i_] = x
+            return a
+        if f == 'tuple': return tuple(l)
         if f == 'set': return set(l)
         if f == 'keys': return dict.fromkeys(l).keys()
         return list(l)
